@@ -4,15 +4,26 @@ from .. import chunks as C
 from ..core import Violation, VERIF, modules_for
 
 PRINTABLE = bytes(range(0x21, 0x7f))
+# "format specific reserved chunks" (sndfile.h: sf_set_chunk "will fail for" them): the markers the container's own header
+# parser interprets.  These are the ONLY well-formed ids the predicate lets sf_set_chunk refuse (the repaired library refuses
+# exactly them: Sf.Chunk.reserved).
 RESERVED = {
-    "wav": [b"data", b"fmt ", b"RIFF", b"LIST", b"fact", b"PEAK", b"bext", b"cue ", b"smpl", b"PAD ", b"TAGx", b"INFO"],
-    "rf64": [b"data", b"fmt ", b"ds64", b"LIST", b"PEAK", b"bext", b"PAD "],
-    "aiff": [b"COMM", b"SSND", b"FORM", b"NAME", b"MARK", b"INST", b"PEAK", b"APPL", b"(c) ", b"ANNO", b"CHAN"],
-    "caf": [b"data", b"desc", b"free", b"info", b"chan", b"peak", b"pakt"],
+    "wav": [b"RIFF", b"RIFX", b"fmt ", b"fact", b"data", b"PEAK", b"cue ", b"smpl", b"acid", b"bext", b"cart"],
+    "rf64": [b"ds64", b"fmt ", b"data", b"PEAK", b"bext", b"cart"],
+    "aiff": [b"FORM", b"COMM", b"SSND", b"PEAK", b"MARK", b"INST", b"CHAN", b"(c) ", b"NAME", b"AUTH", b"ANNO", b"COMT", b"basc", b"NONE"],
+    "caf": [b"desc", b"data", b"pakt", b"kuki", b"peak", b"chan", b"info"],
 }
+# accepted although the container knows the name: the reader looks inside them / the writer emits chunks of that name itself
+# (Sf.Chunk.passThrough).  They must round-trip like any other id; the model does not predict their read side.
+PASS_THROUGH = {"wav": [b"LIST", b"INFO", b"PAD "], "rf64": [b"LIST", b"INFO", b"PAD "], "aiff": [b"APPL"], "caf": [b"free"]}
 # ids the parsers only log and skip: perfectly good custom ids (must round-trip)
-HARMLESS = {"wav": [b"JUNK", b"iXML", b"DISP", b"inst"], "rf64": [b"JUNK", b"RIFF", b"COMM"], "aiff": [b"data", b"fmt ", b"LIST", b"FVER"],
-            "caf": [b"kuki", b"RIFF", b"COMM", b"SSND"]}
+HARMLESS = {"wav": [b"JUNK", b"iXML", b"DISP", b"inst", b"TAGx", b"WAVE"], "rf64": [b"JUNK", b"RIFF", b"COMM", b"fact", b"cue ", b"smpl"],
+            "aiff": [b"data", b"fmt ", b"LIST", b"FVER", b"SFX!", b"AIFC"], "caf": [b"caff", b"RIFF", b"COMM", b"SSND"]}
+
+
+def stored_id(i):
+    """the marker an id is stored under and found again by: the C string, cut to four characters, padded with spaces"""
+    return i.split(b"\0")[0][:4].ljust(4, b" ")
 SIZES = [0, 1, 2, 3, 4, 5, 255, 256, 4095, 4096, 51199, 51200]
 COUNT_SPREAD = [0, 1, 2, 19, 20, 21, 30, 31, 32, 33, 47, 48, 49, 72, 73, 74, 110, 111, 112, 167, 168, 169, 199, 200]
 
@@ -21,9 +32,11 @@ def rand_id(rng, cont):
     if cont == "caf" and rng.random() < 0.3:
         while True:
             b = bytes(rng.randrange(1, 256) for _ in range(4))
-            if b not in RESERVED["caf"] and b not in (b"kuki",):
+            if b not in RESERVED["caf"] and b not in PASS_THROUGH["caf"]:
                 return b
-    return bytes(rng.choice(PRINTABLE) for _ in range(4))
+    # one id in six is shorter than four characters (stored padded with spaces)
+    n = 4 if rng.random() < 0.84 else rng.choice([1, 2, 3])
+    return bytes(rng.choice(PRINTABLE) for _ in range(n))
 
 
 def legal_pool(rng, cont, n):
@@ -34,7 +47,7 @@ def legal_pool(rng, cont, n):
             res.append(rng.choice(res))
         else:
             i = rand_id(rng, cont)
-            while i in RESERVED[cont] or (cont == "wav" and i[:3] == b"TAG"):
+            while stored_id(i) in RESERVED[cont] or stored_id(i) in PASS_THROUGH[cont]:
                 i = rand_id(rng, cont)
             res.append(i)
     return res
@@ -47,8 +60,14 @@ def payload(rng, n):
     return bytes((seed + 7 * k) & 0xff for k in range(n))
 
 
-def reads_for(rng, chunks, heavy=True):
+OWN_LAST = {"wav": b"data", "rf64": b"data", "aiff": b"SSND", "caf": b"data"}
+LAST_OWN = b"data"
+
+
+def reads_for(rng, chunks, heavy=True, cont=None):
     """iterator usage patterns on the read handle"""
+    global LAST_OWN
+    LAST_OWN = OWN_LAST.get(cont, b"data")
     R = ["chunkall h1 null"]
     ids = [i for (i, _) in chunks]
     if ids:
@@ -58,6 +77,7 @@ def reads_for(rng, chunks, heavy=True):
             R += ["chunkiter h1 %s" % i.hex(), "chunkdata h1 %d" % rng.choice([1, 2, 3, 7]), "chunknext h1", "chunkdata h1", "chunknext h1", "chunknext h1"]
             R.append("chunkall h1 null %d" % rng.choice([1, 3, 6]))
     R.append("chunkall h1 7a7a7a51")          # an id nobody uses
+    R.append("chunkall h1 %s" % LAST_OWN.hex())   # by id, the LAST entry of the read table (the container's audio chunk; LAST_OWN is set per script)
     R += ["chunkiter h1 null", "chunkdata h1 2", "chunknext h1", "chunkdata h1 5"]
     return R
 
@@ -70,12 +90,12 @@ def gen_scripts(ctx):
     for n in range(0, 201):
         ids = legal_pool(rng, "wav", n)
         ch = [(ids[k], payload(rng, (k * 3 + n) % 6)) for k in range(n)]
-        S.append(("count-wav-%03d" % n, "count", "wav", C.mk_script("wav", ch, reads=reads_for(rng, ch, heavy=(n % 10 == 0))), {"chunks": ch}))
+        S.append(("count-wav-%03d" % n, "count", "wav", C.mk_script("wav", ch, reads=reads_for(rng, ch, heavy=(n % 10 == 0), cont="wav")), {"chunks": ch}))
     for cont in ("rf64", "aiff", "caf"):
         for n in (range(0, 201) if thorough else COUNT_SPREAD):
             ids = legal_pool(rng, cont, n)
             ch = [(ids[k], payload(rng, (k * 5 + n) % 7)) for k in range(n)]
-            S.append(("count-%s-%03d" % (cont, n), "count", cont, C.mk_script(cont, ch, reads=reads_for(rng, ch, heavy=(n % 3 == 0))), {"chunks": ch}))
+            S.append(("count-%s-%03d" % (cont, n), "count", cont, C.mk_script(cont, ch, reads=reads_for(rng, ch, heavy=(n % 3 == 0), cont=cont)), {"chunks": ch}))
     # b. payload sizes, single chunk and in company
     for cont in C.CONTAINERS:
         for sz in SIZES + ([rng.randrange(6, 51200) for _ in range(4 if not thorough else 40)]):
@@ -92,13 +112,27 @@ def gen_scripts(ctx):
     # c. ids: ids the parser skips by name are ordinary custom ids; reserved / short / unprintable ids are classes
     for cont in C.CONTAINERS:
         ch = [(i, payload(rng, 1 + k)) for k, i in enumerate(HARMLESS[cont])]
-        S.append(("ids-harmless-%s" % cont, "ids", cont, C.mk_script(cont, ch, reads=reads_for(rng, ch)), {"chunks": ch}))
+        S.append(("ids-harmless-%s" % cont, "ids", cont, C.mk_script(cont, ch, reads=reads_for(rng, ch, cont=cont)), {"chunks": ch}))
         for i in RESERVED[cont]:
-            ch = [(b"okay", b"\x01"), (i, payload(rng, 4))]
-            S.append(("ids-reserved-%s-%s" % (cont, i.hex()), "ids-class", cont, C.mk_script(cont, ch, reads=["chunkall h1 null"]), {"chunks": ch}))
-        for i in (b"a", b"ab", b"abc", b"AAA\xa4", b"\x01bcd", b"ab\x7fd", b"\xff\xfe\xfd\xfc"):
-            ch = [(b"okay", b"\x01"), (i, payload(rng, 3))]
-            S.append(("ids-odd-%s-%s" % (cont, i.hex()), "ids-class", cont, C.mk_script(cont, ch, reads=["chunkall h1 null"]), {"chunks": ch}))
+            for plen in (4, 40):
+                ch = [(b"okay", b"\x01"), (i, payload(rng, plen))]
+                S.append(("ids-reserved-%s-%s-%d" % (cont, i.hex(), plen), "ids-class", cont, C.mk_script(cont, ch, reads=["chunkall h1 null"]), {"chunks": ch}))
+        for i in PASS_THROUGH[cont]:
+            ch = [(b"okay", b"\x01"), (i, payload(rng, 4)), (b"more", b"\x02\x03"), (i, payload(rng, 40))]
+            S.append(("ids-pass-%s-%s" % (cont, i.hex()), "ids-class", cont, C.mk_script(cont, ch, reads=["chunkall h1 null", "chunkall h1 %s" % i.hex()]), {"chunks": ch}))
+        for i in (b"a", b"ab", b"abc", b"x y", b"ab ", b"AAA\xa4", b"\x01bcd", b"ab\x7fd", b"\xff\xfe\xfd\xfc", b"da", b"fmt"):
+            ch = [(b"okay", b"\x01"), (i, payload(rng, 3)), (i, payload(rng, 5))]
+            S.append(("ids-odd-%s-%s" % (cont, i.hex()), "ids-class", cont, C.mk_script(cont, ch, reads=["chunkall h1 null", "chunkall h1 %s" % i.hex(), "chunkall h1 %s" % stored_id(i).hex()]), {"chunks": ch}))
+    # by-id iteration whose LAST match is the LAST entry of the read table: a custom LIST chunk in the header and the library's
+    # own LIST/INFO behind the audio (a string set after the audio); RF64 likewise
+    for cont in ("wav", "rf64"):
+        ch = [(b"LIST", b"adtlnote\x04\x00\x00\x00abcd"), (b"okay", b"\x01")]
+        S.append(("iter-last-%s" % cont, "iter", cont, C.mk_script(cont, ch, late=[], reads=["chunkall h1 %s" % b"LIST".hex(), "chunkall h1 null"]).replace("close h0\n", "setstr h0 1 %s\nclose h0\n" % b"late title".hex(), 1).replace("r h1 s16 i 10", "r h1 s16 i 8"),
+                  {"chunks": ch, "own": {b"LIST": 1}}))
+    # the WAV reader's ID3v1 test: a chunk 'TAG?' that starts exactly 128 bytes before the end of the file, in front of the audio
+    for frames in (8, 1, 20):
+        ch = [(b"TAGx", payload(rng, 112 - 2 * frames))]
+        S.append(("ids-tag128-wav-%d" % frames, "ids", "wav", C.mk_script("wav", ch, frames=frames, reads=["chunkall h1 %s" % b"TAGx".hex()]), {"chunks": ch}))
     # d. interleaving with other metadata calls (strings before / between / after the chunks)
     for cont in C.CONTAINERS:
         for pos in (0, 1, 3):
@@ -129,13 +163,13 @@ def gen_scripts(ctx):
 
 
 def may_refuse(cont, i):
-    """ids for which the statement / the documentation allow sf_set_chunk to fail: format-reserved ids, and ids that are
-    not four characters the container can represent"""
-    if len(i) != 4 or 0 in i:
+    """ids for which the statement / the documentation allow sf_set_chunk to fail: format-reserved ids (sndfile.h), and ids
+    the container cannot represent (a byte outside printable ASCII in WAV, RF64, AIFF; an empty id).  Ids of 1-3 characters
+    are in the statement's quantifier and must be stored (RIFF / IFF / CAF pad them with spaces)."""
+    m = stored_id(i)
+    if m == b"    " or m in RESERVED[cont]:
         return True
-    if i in RESERVED[cont] or i in ([b"RIFX", b"acid", b"cart"] if cont in ("wav", "rf64") else [b"AUTH", b"COMT", b"basc", b"NONE"] if cont == "aiff" else []):
-        return True
-    return cont != "caf" and any(b < 0x20 or b > 0x7e for b in i)
+    return cont != "caf" and any(b < 0x20 or b > 0x7e for b in m)
 
 
 def predicate(cont, script, pairs, meta):
@@ -150,7 +184,7 @@ def predicate(cont, script, pairs, meta):
             i, d = bytes.fromhex(op[2]), bytes.fromhex(op[3]) if len(op) > 3 else b""
             if ls[0] == "ret=0 err=0":
                 if not wrote:
-                    chunks.append((i, d))
+                    chunks.append((stored_id(i), d))
             elif ls[0].startswith("ret=") and not ls[0].startswith("ret=0 ") and (wrote or may_refuse(cont, i)):
                 pass        # refused: allowed for a chunk set after the audio and for ids the API need not accept
             else:
@@ -168,6 +202,7 @@ def predicate(cont, script, pairs, meta):
             return "re-opened file reports '%s', %d frames were written" % (ls[0], frames)
         if op[0] == "r" and ls:
             n = int(op[4])
+            frames = frames or 0
             want = "ret=%d err=0 data=%s%s" % (frames, C.audio_hex(frames), "a5a5" * (n - frames))
             if ls[0] != want:
                 return "audio read back differs from what was written: '%s'" % ls[0][:120]
@@ -182,12 +217,26 @@ def predicate(cont, script, pairs, meta):
         if op[2] == "null":
             mine = [e for e in ents if bytes.fromhex(e["id"]) in ids]
             expect = chunks
+            for oid, own in meta.get("own", {}).items():       # the container's own trailing chunks of a custom id
+                if len(mine) == len(expect) + own and [bytes.fromhex(e["id"]) for e in mine[-own:]] == [oid] * own:
+                    mine = mine[:-own]
+            if cont == "caf" and b"free" in ids and mine and bytes.fromhex(mine[-1]["id"]) == b"free" and len(mine) == len(expect) + 1:
+                mine = mine[:-1]        # the container's own trailing 'free' chunk
         else:
-            q = bytes.fromhex(op[2])
+            q = stored_id(bytes.fromhex(op[2]))
             mine = ents
             expect = [(i, d) for (i, d) in chunks if i == q]
             if q not in ids:
+                if q == OWN_LAST[cont] and len(ents) != 1:
+                    return "iteration by id %s (the container's own audio chunk, last in the file) visited %d entries instead of 1" % (q.hex(), len(ents))
                 continue
+            if cont == "caf" and q == b"free" and len(mine) == len(expect) + 1:
+                mine = mine[:-1]
+            own = meta.get("own", {}).get(q, 0)
+            if own:
+                if len(mine) != len(expect) + own:
+                    return "iteration (%s) visited %d chunks: %d were set and the container adds %d of its own" % (op[2], len(mine), len(expect), own)
+                mine = mine[:len(expect)]
         if len(mine) != len(expect):
             return "iteration (%s) visited %d custom chunks, %d were set" % (op[2], len(mine), len(expect))
         for e, (i, d) in zip(mine, expect):
@@ -230,6 +279,8 @@ def same(model, impl):
     for m, i in zip(model, impl):
         if m == i:
             continue
+        if m == "ret=E err=0" and i.startswith("ret=") and i.endswith(" err=0") and not i.startswith("ret=0 "):
+            continue        # a refusal: error numbers are compared as zero / non-zero
         if m.endswith("data=?") and i.startswith(m[:-1]):
             continue
         return False
@@ -244,6 +295,7 @@ def check_known(ctx):
     """Replay every witness; print KNOWN-FINDING while it still fails with its signature; the 'fixed' entry is a
     regression test (must run clean under ASan)."""
     still = {}
+    ctx.run_regressions()       # `expect-last` lines of the witnesses of repaired defects
     for e in ctx.known:
         text = open(os.path.join(VERIF, e["witness"])).read()
         script = text.split("--- script", 1)[1].lstrip("\n")
@@ -284,10 +336,12 @@ def check_known(ctx):
     return still
 
 
-CLASS_TO_KF = {"header-cache": "C13-header-cache", "short-id": "C13-short-id", "unprintable-id": "C13-unprintable-id",
-               "reserved-id": "C13-reserved-id", "late-grow": "C13-late-set", "stale-iterator": "C13-stale-iterator",
-               "vio-zero-read": "C13-vio-zero-read"}
-PREDICTED = ("stale-iterator", "vio-zero-read")     # read-side classes: the model still predicts the whole transcript
+# classes the model attaches to a script -> the known finding that may waive a failing predicate there.  The id classes
+# (short / unprintable / reserved), late-grow, stale-iterator and vio-zero-read are repaired: the model predicts the repaired
+# behaviour, nothing is waived for them.  `pass-through` (accepted ids the container's reader looks into) has no entry: the
+# model does not predict the read side, the predicate must simply hold.
+CLASS_TO_KF = {"header-cache": "C13-header-cache"}
+PREDICTED = ()     # read-side classes for which the model would still predict the whole transcript: none left
 
 
 def custom_only(lines, ids):
@@ -367,7 +421,7 @@ def run(ctx):
             # outside the domain of the round-trip theorem: only the calls the model still predicts (sf_set_chunk results) are compared
             nset = sum(1 for op, _ in pairs if op[0] == "setchunk")
             why = predicate(cont, script, pairs, meta)
-            if il[:nset] != ml[1:1 + nset]:
+            if not same(ml[1:1 + nset], il[:nset]):
                 # the library now answers these calls differently from the model (e.g. refuses them).  That is an alarm
                 # only if the property is violated on this transcript.
                 ctx.notes.setdefault("class_scripts_answering_differently", []).append(name)
@@ -378,14 +432,15 @@ def run(ctx):
             unknown = [cl for cl in classes if cl not in CLASS_TO_KF or not still.get(CLASS_TO_KF[cl], False)]
             if why and unknown:
                 found_input = True
-                v("class-" + name, replay_text("%s: %s; the script is in class %s whose known finding no longer reproduces with its signature" % (name, why, ",".join(unknown)), script))
+                v("class-" + name, replay_text("%s: %s; class(es) of the script: %s (%s)" % (name, why, ",".join(unknown),
+                                  "no known finding covers them" if not any(cl in CLASS_TO_KF for cl in unknown) else "the known finding no longer reproduces with its signature"), script))
             continue
         why = predicate(cont, script, pairs, meta)
         mcmp, icmp = ml[1:], il
         if meta.get("strings"):
             ids = [i for (i, _) in meta["chunks"]]
             mcmp, icmp = custom_only(mcmp, ids), custom_only(icmp, ids)
-        if why and classes and all(still.get(CLASS_TO_KF[cl], False) for cl in classes) and same(mcmp, icmp):
+        if why and classes and all(still.get(CLASS_TO_KF.get(cl), False) for cl in classes) and same(mcmp, icmp):
             for cl in classes:
                 waived[cl] = waived.get(cl, 0) + 1
             continue
@@ -408,7 +463,7 @@ def run(ctx):
                 if ml2[0] == "classes: -" and same(m2, il2):
                     ctx.notes.setdefault("scripts_with_refused_calls_matching_model_without_them", []).append(name)
                     continue
-        if classes and not same(ml[1:], il) and not any(still.get(CLASS_TO_KF[cl], False) for cl in classes):
+        if classes and not same(ml[1:], il) and not any(still.get(CLASS_TO_KF.get(cl), False) for cl in classes):
             # the script is in a known-finding class, the finding's witness no longer reproduces and the property
             # holds here: the defect has been repaired; the bug-for-bug model is out of date, not the library
             ctx.notes.setdefault("known_findings_apparently_fixed", []).append(name)
@@ -428,10 +483,11 @@ def run(ctx):
                       % (", ".join(failed), ctx.notes.get("lean_log_tail", "")), no_input=True)
     ctx.coverage["exhaustive"] = False
     ctx.coverage["rule"] = ("custom chunks: WAV every count 0..200 (tiny payloads, duplicate ids), %s for RF64/AIFF/CAF; payload sizes %s + random, beyond-cache sizes as known-finding class; "
-                            "ids: random printable 4-char (CAF: any bytes), harmless named ids, reserved/short/unprintable ids as classes; strings interleaved at 3 positions; set after audio; "
+                            "ids: random printable ids of 1-4 characters (CAF: any bytes), harmless named ids, every reserved id (must be refused or round-trip: the library refuses), pass-through ids (LIST, INFO, PAD / APPL / free), "
+                            "short / space-padded / unprintable ids set and looked up by both spellings, 'TAG?' at 128 bytes from the end of a WAV file; strings interleaved at 3 positions; set after audio; "
                             "path and virtual-I/O readers; iterator patterns: NULL id, by id (duplicates), unknown id, next after last, short/zero/oversized buffers. "
                             "each script: model transcript == implementation transcript AND the property predicate on the implementation transcript; "
                             "distinct_nontrivial counts (kind, container) streams") % ("every count" if ctx.tier == "thorough" else "counts %s" % COUNT_SPREAD, SIZES)
     ctx.assumptions += ["16-bit PCM mono files; other encodings share the chunk code paths (chunk.c, *_write_header custom-chunk loops) but have other leading chunks",
-                        "ids longer than 4 characters are outside the property's quantifier and are not generated",
+                        "ids longer than 4 characters are outside the property's quantifier and are not generated (the model cuts them to four characters as the code does)",
                         "the payload of the containers' own chunks (RIFF, fmt, COMM, …) is not modelled: only their id and size are compared"]
